@@ -17,7 +17,8 @@ LEVEL = "exploration"
 ASSUMPTIONS = [
   "oracle: Python unbounded ints; result reduced mod 2^n, comparisons 0/1",
   "division/modulo by zero is outside the property (any outcome accepted)",
-  "an int operand in [-2^(n-1),0) may either raise or behave as k mod 2^n (statement allows both)",
+  "an int operand in [-2^(n-1),0) may either raise or yield the mathematically defined result on the true integer reduced mod 2^n "
+  "(for + - * & | ^ that is the same as using k mod 2^n; for // % >> and comparisons it is not)",
   "a shift amount of another width / an out-of-range int shift amount may raise or give the left-operand-width result",
   "reflected shifts (int << Bits) are undefined in Python for Bits (TypeError) and accepted as 'raises'",
   "only the pure-Python Bits implementation is exercised (no mamba module in this sandbox)",
@@ -54,6 +55,21 @@ def spec(op, n, x, y):
   if op == ">": return int(x > y)
   if op == ">=": return int(x >= y)
   raise KeyError(op)
+
+
+def math_result(op, n, a, b):
+  """a op b on true (possibly negative) integers, reduced modulo 2^n; 'error' if undefined."""
+  M = 1 << n
+  if op in ("+", "-", "*", "&", "|", "^"):
+    return {"+": a + b, "-": a - b, "*": a * b, "&": a & b, "|": a | b, "^": a ^ b}[op] % M
+  if op in ("//", "%"):
+    if b == 0: return None
+    return (a // b if op == "//" else a % b) % M
+  if op in ("<<", ">>"):
+    if b < 0: return "error"
+    if b >= n and a >= 0: return 0
+    return ((a << b) if op == "<<" else (a >> b)) % M if b < 4096 else None
+  return int({"==": a == b, "!=": a != b, "<": a < b, "<=": a <= b, ">": a > b, ">=": a >= b}[op])
 
 
 def _mk(d):
@@ -120,11 +136,21 @@ def check_binop(case):
           fails.append((f"binop:{op}:{form}:int-out-of-range:no-error", "ValueError", repr(r),
                         f"int {k} does not fit Bits{n} but was accepted"))
       return fails
+    y = k
     if k < 0:
       if exc is not None: return fails          # allowed to raise
-      y = k % (1 << n)
-    else:
-      y = k
+      # ... or return the mathematically defined result on the true integer k, reduced modulo 2^n
+      a_, b_ = (x, k) if form == "BI" else (k, x)
+      want = math_result(op, n, a_, b_)
+      if want == "error":
+        fails.append((f"binop:{op}:{form}:negative-int:no-error", "ValueError", repr(r), f"int {k} with Bits{n}({x})"))
+        return fails
+      if want is None: return fails
+      bad = _valid_bits(r, rn)
+      if bad or int(r._uint) != want:
+        fails.append((f"binop:{op}:{form}:negative-int:wrong-value", want, bad or int(r._uint),
+                      f"{a_} {op} {b_} at width {n}: neither an error nor the mathematical result mod 2^{n}"))
+      return fails
     if form == "IB": x, y = y, x               # reflected: k op bits
   want = spec(op, n, x, y)
   if want is None:
@@ -408,12 +434,22 @@ def proto_obs(obj):
   return (int(obj._uint), int(obj._next) if hasattr(obj, "_next") else None)
 
 
+def proto_hash_ok(obj):
+  """Hash / equality / dict lookup must follow the current value (called after every letter, so
+  a stale cached hash from any earlier state of the same object is noticed)."""
+  from pymtl3.datatypes import Bits
+  fresh = Bits(obj.nbits, int(obj._uint))
+  return hash(obj) == hash(fresh) and bool(obj == fresh) and {fresh: 1}.get(obj) == 1
+
+
 def proto_build(n, hist):
   from pymtl3.datatypes import Bits
   obj = Bits(n, 0)
+  hash(obj)
   for l in hist:
     try: obj = proto_apply(obj, tuple(l))
     except Exception: pass
+    hash(obj)
   return obj
 
 
@@ -438,6 +474,7 @@ def proto_step_check(n, hist, letter):
     if exc is not None: fails.append((f"proto:{letter[0]}:raised", want, repr(exc), f"n={n} state={st}"))
     elif obj2 is not obj: fails.append((f"proto:{letter[0]}:rebinds", "same object", "new object", ""))
     elif proto_obs(obj) != want: fails.append((f"proto:{letter[0]}:wrong-state", want, proto_obs(obj), f"n={n} state={st}"))
+    elif not proto_hash_ok(obj): fails.append((f"proto:{letter[0]}:stale-hash-or-eq", "hash/== follow the value", "mismatch with a fresh equal object", f"n={n} state={st} -> {want}"))
   else:
     if exc is None: fails.append((f"proto:{letter[0]}:no-error", "error", proto_obs(obj), f"n={n} state={st} letter={letter}"))
     elif proto_obs(obj) != st: fails.append((f"proto:{letter[0]}:error-but-mutated", st, proto_obs(obj), f"n={n}"))
